@@ -573,13 +573,21 @@ def in_range_strategy(
     :returns: ``hypothesis`` strategy
     """
     if strategy is None:
-        return pandas_dtype_strategy(
+        strategy = pandas_dtype_strategy(
             pandera_dtype,
             min_value=min_value,
             max_value=max_value,
             exclude_min=not include_min,
             exclude_max=not include_max,
         )
+        if (
+            is_float(pandera_dtype)
+            or is_datetime(pandera_dtype)
+            or is_timedelta(pandera_dtype)
+        ):
+            return strategy
+        # exclude_min/exclude_max are only honoured for float dtypes: the
+        # filters below enforce strict bounds for integer dtypes
     min_op = operator.le if include_min else operator.lt
     max_op = operator.ge if include_max else operator.gt
     return strategy.filter(partial(min_op, min_value)).filter(
